@@ -632,29 +632,26 @@ impl<'r> Lowerer<'r> {
     ) -> Value {
         let name = func.name;
 
+        // While the arguments are being evaluated, the ones that have been
+        // evaluated already are live variables of the caller: an early exit
+        // in a later argument (`return`, `?`) has to drop them.
         let mut args = Vec::new();
         if let Some((receiver, ty)) = receiver {
             let ty = self.type_info.convert(&ty);
-            // This values will be dropped by the callee
-            let tmp = self.undropped_tmp();
-            self.vars.push((tmp.clone(), ty));
-
-            self.do_assign(Place::new(tmp.clone(), ty), ty, receiver);
-            args.push(tmp);
+            args.push(self.assign_to_var(receiver, ty));
         }
 
-        args.extend(arguments.iter().map(|a| {
+        for a in arguments {
             let ty = self.type_info.type_of(a);
             let ty = self.type_info.convert(&ty);
             let op = self.expr(a);
+            args.push(self.assign_to_var(op, ty));
+        }
 
-            // These values will be dropped by the callee
-            let tmp = self.undropped_tmp();
-            self.vars.push((tmp.clone(), ty));
-
-            self.do_assign(Place::new(tmp.clone(), ty), ty, op);
-            tmp
-        }));
+        // From here on the values belong to the callee, which drops them.
+        for arg in &args {
+            self.remove_live_variable(arg);
+        }
 
         let mir_signature = ty::Signature {
             parameter_types: func
